@@ -66,3 +66,42 @@ add(Contract(P + 'compile_arg_list_unification', 'fn', [('self', 'CSelf'), ('fun
 
 add(Contract(P + 'compile_variable_declaration', 'fn', [('self', 'CSelf'), ('var', 'Str')], ret='Stmt',
              ensures=['(= {result} (SDecl {var}))']))
+
+C[P + 'compile_variable_declaration'].maps = '-'
+C[P + 'compile_variable_declaration'].ghost['maps_ss'] = 'decls'
+
+add(Contract(P + 'push_bound_vars', 'fn', [('self', 'CSelf'), ('variables', 'SS')], ret='None', modifies=['bvs'],
+             requires=['((_ is bvpush) {bvs})'],
+             ensures=['(= {bvs} (bvpush (seq.++ (bvtop {bvs0}) {variables}) {bvs0}))']))
+add(Contract(P + 'pop_bound_vars', 'fn', [('self', 'CSelf')], ret='None', modifies=['bvs'],
+             requires=['((_ is bvpush) {bvs})'], ensures=['(= {bvs} (bvrest {bvs0}))']))
+add(Contract(P + 'filter_free_variables', 'fn', [('self', 'CSelf'), ('variables', 'SS')], ret='SS',
+             requires=['((_ is bvpush) {bvs})'],
+             # the variables that are not bound yet, each once, in order of first occurrence
+             ensures=['(= {result} (sdedupe (sminus {variables} (bvtop {bvs}))))']))
+add(Contract(P + 'compile_free_variable_declarations', 'fn', [('self', 'CSelf'), ('variables', 'SS')], ret='Code',
+             ensures=['(= {result} (decls {variables}))']))
+add(Contract(P + 'nesting_depth', 'fn', [('self', 'CSelf'), ('code', 'Code')], ret='Int', ensures=['(= {result} (ndepth {code}))'],
+             notes='assumed here (recursive walk over the emitted code); its presence and shape are checked by the C11 size guards'))
+
+_A = '(aliasnames {clause.hargs} (talen {clause.hargs}))'
+_HF = '(sdedupe (sminus (tavarsl {clause.hargs}) (seq.++ (bvtop {bvs0}) ' + _A + ')))'
+_BF = '(sdedupe (sminus (bodyvars {clause.body}) (seq.++ (seq.++ (bvtop {bvs0}) ' + _A + ') ' + _HF + ')))'
+add(Contract(P + 'compile_function_body', 'fn', [('self', 'CSelf'), ('clause', 'Clause')], ret='Code',
+             modifies=['hp', 'hpn', 'hplen', 'bvs', 'cic'],
+             requires=['((_ is bvpush) {bvs})', '(wfb {clause.body})', '(lblle {clause.body} {cic})',
+                       _NAMES.replace('{args}', '{clause.hargs}')],
+             raises={'CompilerError': None},
+             # aliases for the once-occurring plain head variables; then ONE declaration for every other variable of the head, then for
+             # every further variable of the body (each once, before any loop); then the head unifications, left to right, around the body
+             # ({body_code} is the local that holds the result of compile_body: its meaning is the body's, by compile_body's contract)
+             ensures=['(= (semc {body_code}) (semb {clause.body}))',
+                      '(= {result} (capp (capp (capp (aliases {clause.hargs} (talen {clause.hargs})) (decls ' + _HF + ')) (decls ' + _BF + '))'
+                      ' (wrap {clause.hargs} 0 {body_code})))',
+                      '(= {bvs} {bvs0})']))
+
+
+# get_free_variables(expr): expr is the head functor or the body; both expose `.variables`
+add(Contract(P + 'get_free_variables', 'fn', [('self', 'CSelf'), ('expr', 'HasVars')], ret='SS',
+             requires=['((_ is bvpush) {bvs})'],
+             ensures=['(= {result} (sdedupe (sminus {expr.variables} (bvtop {bvs}))))']))
